@@ -163,7 +163,7 @@ def session_tie_histories(ctx, viol, dist):
         spec = None
         if i == 0:
             # whatever the seed: four base structures of equal probability whose lists tie with each other at every level
-            spec = {'terminals': {'D1': [['1', '0.5'], ['2', '0.25'], ['3', '0.25']], 'O1': [['!', '0.5'], ['#', '0.25']],
+            spec = {'terminals': {'D1': [['1', '0.5'], ['2', '0.25'], ['3', '0.25']], 'O1': [['%', '0.5'], ['#', '0.25']],
                                   'A2': [['ab', '0.5'], ['cd', '0.25']], 'C2': [['LL', '0.5'], ['UL', '0.5']]},
                     'grammar': [['D1', '0.25'], ['O1', '0.25'], ['A2', '0.25'], ['D1O1', '0.25']], 'omen_prob': [], 'prince': [], 'mode': 'dyadic',
                     'encoding': 'utf-8'}
